@@ -667,6 +667,11 @@ func mustDecodeTagValueAndArray(valueType pbv1.ValueType, value []byte, valueArr
 			next int
 			err  error
 		)
+		// UnmarshalVarArray un-escapes in place. Rows of a dictionary-encoded
+		// column share one backing slice per distinct value, so decoding the
+		// shared bytes a second time would read the already un-escaped form and
+		// corrupt every element that contains the delimiter or escape byte.
+		value = append([]byte(nil), value...)
 		for idx := 0; idx < len(value); idx = next {
 			end, next, err = encoding.UnmarshalVarArray(value, idx)
 			if err != nil {
